@@ -99,6 +99,27 @@ type wexpr struct {
 	small bool   // constant known to be a small non-negative value (<= 8)
 }
 
+// isConst: is e a WGSL constant expression (foldable at shader-creation time)?
+func (e *wexpr) isConst() bool {
+	switch e.k {
+	case "lit":
+		return true
+	case "var":
+		return e.konst
+	case "callfn", "arrlen", "addr", "deref":
+		return false
+	}
+	if len(e.args) == 0 {
+		return e.konst
+	}
+	for _, a := range e.args {
+		if !a.isConst() {
+			return false
+		}
+	}
+	return true
+}
+
 func litStr(t *wty, bits uint32) string {
 	switch t.k {
 	case "i32":
@@ -196,7 +217,7 @@ func (e *wexpr) sexp() string {
 	case "lit":
 		fmt.Fprintf(&b, "(lit %s %d)", e.ty.sexp(), e.bits)
 	case "var":
-		fmt.Fprintf(&b, "(var %s)", e.name)
+		fmt.Fprintf(&b, "(var %s %s)", e.name, e.ty.sexp())
 	case "arrlen":
 		fmt.Fprintf(&b, "(arrlen %s)", e.name)
 	case "swz", "field":
@@ -575,6 +596,12 @@ type wgenOpts struct {
 	helpers    int
 	structs    bool
 	switchOnly bool
+	rawShift   bool // leave run-time shift amounts unmasked (known finding: SPIR-V/GLSL emit unmasked shifts)
+	clz        bool // use countLeadingZeros/countTrailingZeros (known finding: SPIR-V emits FindUMsb/FindILsb unadjusted)
+	privInit   bool // give private globals initialisers (known finding: SPIR-V drops InitExpr initialisers)
+	swBreak    bool // explicit `break` at the end of switch clauses (known finding: SPIR-V OpUnreachable merge)
+	absU       bool // abs() on unsigned operands (known finding: SPIR-V uses SAbs)
+	vecInit    bool // allow vector-typed private-global initialisers (known finding: literal kinds)
 	negInit    bool // allow private-global initialisers that are not plain literals (e.g. -5i)
 }
 
@@ -669,7 +696,7 @@ func (g *wgen) lit(t *wty, small bool) *wexpr {
 		k := true
 		for i := range args {
 			args[i] = g.lit(t.elem, small)
-			k = k && args[i].konst
+			k = k && args[i].isConst()
 		}
 		return &wexpr{k: "cons", ty: t, args: args, konst: k}
 	}
@@ -775,7 +802,7 @@ func (g *wgen) aggregate(t *wty, depth int) *wexpr {
 // nonConst returns e if it is not a constant expression, otherwise a fresh run-time value.
 func (g *wgen) runtime(t *wty, depth int) *wexpr {
 	e := g.expr(t, depth)
-	if e.konst {
+	if e.isConst() {
 		return g.load(t)
 	}
 	return e
@@ -785,7 +812,7 @@ func (g *wgen) binary(t *wty, depth int) *wexpr {
 	sc := t.scalarOf()
 	mk := func(op string, a, b *wexpr) *wexpr {
 		g.f("bin" + op + ":" + a.ty.scalarOf().k + shapeOf(a.ty, b.ty))
-		return &wexpr{k: "bin", ty: t, op: op, args: []*wexpr{a, b}, konst: a.konst && b.konst}
+		return &wexpr{k: "bin", ty: t, op: op, args: []*wexpr{a, b}, konst: a.isConst() && b.isConst()}
 	}
 	switch sc.k {
 	case "bool":
@@ -834,11 +861,16 @@ func (g *wgen) binary(t *wty, depth int) *wexpr {
 			} else {
 				b = &wexpr{k: "lit", ty: tU32, bits: uint32(g.c.rng.Intn(32)), konst: true}
 			}
-			if a.konst {
+			if a.isConst() {
 				a = g.load(t) // constant << constant may overflow at shader-creation time
 			}
 		} else {
 			b = g.runtime(st, depth-1)
+			if !g.o.rawShift {
+				b = &wexpr{k: "bin", ty: st, op: "&", args: []*wexpr{b, g.splat(st, 31)}}
+			} else {
+				g.f("raw-shift")
+			}
 		}
 		return mk(op, a, b)
 	case "/", "%":
@@ -848,7 +880,7 @@ func (g *wgen) binary(t *wty, depth int) *wexpr {
 	case "+", "-", "*":
 		a := g.expr(t, depth-1)
 		b := g.expr(t, depth-1)
-		if a.konst && b.konst && !(a.small && b.small && op != "-") {
+		if a.isConst() && b.isConst() && !(a.small && b.small && op != "-") {
 			b = g.load(t) // avoid shader-creation-time overflow
 		}
 		// vector ⊗ scalar mixing
@@ -891,11 +923,11 @@ func (g *wgen) unary(t *wty, depth int) *wexpr {
 		op = "-"
 	}
 	a := g.expr(t, depth-1)
-	if op == "-" && a.konst {
+	if op == "-" && a.isConst() {
 		a = g.load(t) // -(INT_MIN) as constant expression is an error
 	}
 	g.f("un" + op + ":" + sc.k)
-	return &wexpr{k: "un", ty: t, op: op, args: []*wexpr{a}, konst: a.konst}
+	return &wexpr{k: "un", ty: t, op: op, args: []*wexpr{a}, konst: a.isConst()}
 }
 
 func (g *wgen) builtin(t *wty, depth int) *wexpr {
@@ -908,6 +940,9 @@ func (g *wgen) builtin(t *wty, depth int) *wexpr {
 	case "i32", "u32":
 		switch g.c.rng.Intn(12) {
 		case 0:
+			if sc.k == "u32" && !g.o.absU {
+				return call("countOneBits", g.runtime(t, depth-1))
+			}
 			return call("abs", g.runtime(t, depth-1))
 		case 1:
 			return call("min", g.expr(t, depth-1), g.runtime(t, depth-1))
@@ -922,8 +957,14 @@ func (g *wgen) builtin(t *wty, depth int) *wexpr {
 		case 4:
 			return call("countOneBits", g.runtime(t, depth-1))
 		case 5:
+			if !g.o.clz {
+				return call("countOneBits", g.runtime(t, depth-1))
+			}
 			return call("countLeadingZeros", g.runtime(t, depth-1))
 		case 6:
+			if !g.o.clz {
+				return call("reverseBits", g.runtime(t, depth-1))
+			}
 			return call("countTrailingZeros", g.runtime(t, depth-1))
 		case 7:
 			return call("firstLeadingBit", g.runtime(t, depth-1))
@@ -939,7 +980,7 @@ func (g *wgen) builtin(t *wty, depth int) *wexpr {
 				vt := tVec(n, t)
 				return call("dot", g.runtime(vt, depth-1), g.runtime(vt, depth-1))
 			}
-			return call("abs", g.runtime(t, depth-1))
+			return call("reverseBits", g.runtime(t, depth-1))
 		}
 	case "bool":
 		if t.isScalar() {
@@ -1245,6 +1286,9 @@ func (g *wgen) stmt(depth int) *wstmt {
 				var rhs *wexpr
 				if op == "<<" || op == ">>" {
 					rhs = g.runtime(t.withScalar(tU32), 2)
+					if !g.o.rawShift {
+						rhs = &wexpr{k: "bin", ty: rhs.ty, op: "&", args: []*wexpr{rhs, g.splat(rhs.ty, 31)}}
+					}
 				} else {
 					rhs = g.runtime(t, 2)
 				}
@@ -1342,7 +1386,7 @@ func (g *wgen) callVoid(f *wfunc) *wexpr {
 			args[i] = g.expr(p.ty, 2)
 		}
 	}
-	return &wexpr{k: "callfn", name: f.name, args: args}
+	return &wexpr{k: "callfn", ty: &wty{k: "void"}, name: f.name, args: args}
 }
 
 func (g *wgen) switchStmt(depth int) *wstmt {
@@ -1391,7 +1435,7 @@ func (g *wgen) switchStmt(depth int) *wstmt {
 		g.push()
 		c.body = g.stmts(1+g.c.rng.Intn(2), depth-1)
 		// explicit trailing break in some cases (valid WGSL; a validator must accept it)
-		if g.c.chance(0.3) && (len(c.body) == 0 || !isJump(c.body[len(c.body)-1])) {
+		if g.o.swBreak && g.c.chance(0.3) && (len(c.body) == 0 || !isJump(c.body[len(c.body)-1])) {
 			c.body = append(c.body, &wstmt{k: "break"})
 			g.f("break-in-switch")
 		}
@@ -1574,8 +1618,11 @@ func genModule(c *ctx, o wgenOpts) (*wmodule, map[string]int) {
 		t := g.valueTy()
 		name := fmt.Sprintf("gp%d", i)
 		gl := &wglobal{name: name, space: "private", ty: t}
-		if c.chance(0.5) {
+		if c.chance(0.5) && o.privInit && (t.k != "vec" || o.vecInit) {
 			gl.init = g.lit(t, !o.negInit)
+			if t.k == "vec" {
+				g.f("private-init-vector")
+			}
 			if hasNegLit(gl.init) {
 				g.f("private-init-negative")
 			}
@@ -1627,5 +1674,5 @@ func hasNegLit(e *wexpr) bool {
 }
 
 func defaultGenOpts(c *ctx) wgenOpts {
-	return wgenOpts{negInit: c.chance(0.1), maxStmts: 6 + c.rng.Intn(14), maxDepth: 1 + c.rng.Intn(3), floats: c.chance(0.5), helpers: c.rng.Intn(4), structs: c.chance(0.5)}
+	return wgenOpts{swBreak: c.chance(0.3), absU: c.chance(0.1), negInit: c.chance(0.1), vecInit: c.chance(0.1), rawShift: c.chance(0.1), clz: c.chance(0.1), privInit: c.chance(0.3), maxStmts: 6 + c.rng.Intn(14), maxDepth: 1 + c.rng.Intn(3), floats: c.chance(0.5), helpers: c.rng.Intn(4), structs: c.chance(0.5)}
 }
